@@ -7,6 +7,7 @@ package main
 
 import (
 	"fmt"
+	"github.com/machship/mpath"
 	"math/big"
 	"strconv"
 	"strings"
@@ -863,5 +864,21 @@ func genC04(c *Ctx) {
 			cls = "random/aggregate/empty"
 		}
 		c04Check(c, fn, "$.xs."+fn+"("+strings.Join(args, ",")+")", d, c04AggExact(fn, all), cls)
+	}
+	// the package's one configuration switch (how decimals are marshalled to JSON) must not change arithmetic: the
+	// division grid again after Setup(true) and after Setup(false) - a history, not an input
+	for _, on := range []bool{true, false} {
+		mpath.Setup(on)
+		cls := fmt.Sprintf("after-Setup(%v)", on)
+		grid := []string{"1", "2", "3", "7", "-3", "0.3", "1e-9", "999999999999999", "2.5", "10.00"}
+		for i, as := range grid {
+			for j, bs := range grid {
+				a, b := c04Parse(as), c04Parse(bs)
+				d := tvMap("str", [][2]any{{hx("a"), c04Pick(a, i+j)}, {hx("b"), c04Pick(b, i)}, {hx("xs"), tvSlice(1, c04Pick(a, j), c04Pick(b, i), c04Pick(b, j))}})
+				c04Check(c, "Divide", "$.a.Divide($.b)", d, c04Exact2("Divide", a.rat(), b.rat()), cls+"/Divide")
+				c04Check(c, "Average", "$.xs.Average()", d, c04AggExact("Average", []*big.Rat{a.rat(), b.rat(), b.rat()}), cls+"/Average")
+				c04Check(c, "Multiply", "$.a.Multiply($.b)", d, c04Exact2("Multiply", a.rat(), b.rat()), cls+"/Multiply")
+			}
+		}
 	}
 }
